@@ -299,6 +299,8 @@ func (in *Interp) bindDeclarations(c *Ctx, vars []string, funcs []*FuncLit, f *O
 		fo := in.makeFunction(fd, c.Var)
 		if !env.HasBinding(in, fd.Name) {
 			env.CreateMutableBinding(in, fd.Name, configurable)
+		} else if evalCode && in.Flags&AltEvalNotDeletable != 0 {
+			// otto never performs step 5.e: an existing binding keeps its attributes
 		} else if oe, ok := env.(*ObjEnv); ok && oe == in.GlobalEnv {
 			existing := in.Global.getProp(in, fd.Name)
 			if existing.C {
